@@ -384,7 +384,18 @@ func c03Truth(hi *history, gitLog string) ([]c03Expect, map[string]string) {
 				if ru.Broken {
 					continue
 				}
-				out = append(out, c03Expect{Path: p, First: locs[i].First, Last: locs[i].Last, Key: ru.key(), Allowed: allowed, Why: why})
+				al, wh := allowed, why
+				if bf, ok := hi.Fork[p]; ok && copyDst[p] {
+					// the copy ended up (through later renames) at a path that existed at the fork point: pint compares it with the
+					// source of the copy, which may be that very file -- a rule identical to a fork rule of this path may be unmodified
+					for _, br := range bf.Rules {
+						if !br.Broken && br.key() == ru.key() {
+							al = append(append([]string{}, allowed...), "unmodified")
+							wh = why + "; same path and content as a rule of the fork version of this path"
+						}
+					}
+				}
+				out = append(out, c03Expect{Path: p, First: locs[i].First, Last: locs[i].Last, Key: ru.key(), Allowed: al, Why: wh})
 			}
 			continue
 		}
